@@ -199,13 +199,13 @@ Fixpoint rc_next (maxlen : N) (m : rc_tk) (s : list N) (cn : N) : rc_tk * N * bo
       rc_next maxlen m3 s' (cn + 1)
   end.
 
-Record rc_token := mkTok { t_ty : rc_tt; t_raw : list N; t_end : N; t_eof : bool }.
+Record rc_token := rc_mkTok { rc_t_ty : rc_tt; rc_t_raw : list N; rc_t_end : N; rc_t_eof : bool }.
 
-(* readToken(input, max_len): t_end = offset of the input position afterwards, relative to s *)
+(* readToken(input, max_len): rc_t_end = offset of the input position afterwards, relative to s *)
 Definition rc_read_token (maxlen : N) (s : list N) : rc_token :=
   match rc_next maxlen rc_tk0 s 0 with
   | (m, cn, e) =>
-      mkTok (k_ty m) (rev' (k_raw m)) (if negb (k_in m) && negb (k_before m) then cn - 1 else cn) e
+      rc_mkTok (k_ty m) (rev' (k_raw m)) (if negb (k_in m) && negb (k_before m) then cn - 1 else cn) e
   end.
 
 Definition rc_drop (n : N) (s : list N) : list N := skipn (N.to_nat n) s.
@@ -251,9 +251,9 @@ Definition rc_kw_startxref : list N := [115; 116; 97; 114; 116; 120; 114; 101; 1
 Definition rc_kw_xref : list N := [120; 114; 101; 102].
 Definition rc_kw_stream : list N := [115; 116; 114; 101; 97; 109].
 
-Definition rc_is_int (t : rc_token) : bool := match t_ty t with TtInteger => true | _ => false end.
+Definition rc_is_int (t : rc_token) : bool := match rc_t_ty t with TtInteger => true | _ => false end.
 Definition rc_is_word (t : rc_token) (w : list N) : bool :=
-  match t_ty t with TtWord => rc_beq (t_raw t) w | _ => false end.
+  match rc_t_ty t with TtWord => rc_beq (rc_t_raw t) w | _ => false end.
 
 (* ------------------------------------------------------------------ the line scan of reconstruct_xref *)
 Inductive rc_event := EvObj (obj gen : Z) (at_off : N) | EvTrailer (pos : N) | EvStartxref (pos : N).
@@ -270,21 +270,21 @@ Definition rc_shift (base : N) (e : rc_event) : rc_event :=
    token read ran into the end of s *)
 Definition rc_scan_step (s : list N) : option rc_event * N * rc_where * bool :=
   let t1 := rc_read_token 10 s in
-  let s1 := rc_drop (t_end t1) s in
+  let s1 := rc_drop (rc_t_end t1) s in
   let '(ev, touched) :=
     if rc_is_int t1 then
       let t2 := rc_read_token 10 s1 in
       if rc_is_int t2 then
-        let t3 := rc_read_token 10 (rc_drop (t_end t2) s1) in
+        let t3 := rc_read_token 10 (rc_drop (rc_t_end t2) s1) in
         (if rc_is_word t3 rc_kw_obj
-         then Some (EvObj (rc_atoi (t_raw t1)) (rc_atoi (t_raw t2)) (t_end t1 - N.of_nat (length (t_raw t1))))
-         else None, t_eof t1 || t_eof t2 || t_eof t3)
-      else (None, t_eof t1 || t_eof t2)
-    else if rc_is_word t1 rc_kw_trailer then (Some (EvTrailer (t_end t1)), t_eof t1)
-    else if rc_is_word t1 rc_kw_startxref then (Some (EvStartxref (t_end t1)), t_eof t1)
-    else (None, t_eof t1) in
+         then Some (EvObj (rc_atoi (rc_t_raw t1)) (rc_atoi (rc_t_raw t2)) (rc_t_end t1 - N.of_nat (length (rc_t_raw t1))))
+         else None, rc_t_eof t1 || rc_t_eof t2 || rc_t_eof t3)
+      else (None, rc_t_eof t1 || rc_t_eof t2)
+    else if rc_is_word t1 rc_kw_trailer then (Some (EvTrailer (rc_t_end t1)), rc_t_eof t1)
+    else if rc_is_word t1 rc_kw_startxref then (Some (EvStartxref (rc_t_end t1)), rc_t_eof t1)
+    else (None, rc_t_eof t1) in
   let '(_, k, w) := rc_skip_eol s1 in
-  (ev, t_end t1 + k, w, touched).
+  (ev, rc_t_end t1 + k, w, touched).
 
 (* the while loop: the position advances by k after every iteration. Written as a walk over the input with a
    count of bytes still to be skipped, so that no fuel is needed (an iteration always advances: k >= 1; a k of 0,
@@ -375,9 +375,9 @@ Fixpoint rc_prefix (p s : list N) : bool :=
 Definition rc_check_startxref (s : list N) : option N :=
   let t1 := rc_read_token 0 s in
   if rc_is_word t1 rc_kw_startxref then
-    let s1 := rc_drop (t_end t1) s in
+    let s1 := rc_drop (rc_t_end t1) s in
     let t2 := rc_read_token 0 s1 in
-    if rc_is_int t2 then Some (t_end t1 + (t_end t2 - N.of_nat (length (t_raw t2)))) else None
+    if rc_is_int t2 then Some (rc_t_end t1 + (rc_t_end t2 - N.of_nat (length (rc_t_raw t2)))) else None
   else None.
 
 (* InputSource::findLast("startxref", start, 0, finder): walk forward, keep the last accepted match; after an
@@ -400,7 +400,7 @@ Fixpoint rc_find_last_sx (s : list N) (pos : N) (skip : N) (best : option N) : o
 Definition rc_startxref (file : list N) (len : N) : Z :=
   let start := if 1054 <? len then len - 1054 else 0 in
   match rc_find_last_sx (rc_drop start file) start 0 None with
-  | Some p => rc_atoi (t_raw (rc_read_token 0 (rc_drop p file)))
+  | Some p => rc_atoi (rc_t_raw (rc_read_token 0 (rc_drop p file)))
   | None => 0%Z
   end.
 
@@ -554,8 +554,8 @@ Fixpoint rc_subsections (fuel : nat) (maxid : Z) (file : list N) (len : N) (pos 
               let s' := if len <=? p then [] else rc_drop p file in
               let t := rc_read_token 0 s' in
               if rc_is_word t rc_kw_trailer then
-                match parse_obj 2000 (rc_drop (t_end t) s') with
-                | Some (PDict d, _) => SecOk st' d
+                match parse_obj 2000 (rc_drop (rc_t_end t) s') with
+                | Some (SpDict d, _) => SecOk st' d
                 | _ => SecErr st'
                 end
               else rc_subsections f maxid file len p st'
@@ -603,7 +603,7 @@ Fixpoint rc_read_xref (fuel : nat) (maxid : Z) (file : list N) (len : N) (off : 
         | SecOk st2 d =>
             let first := match trailer with None => true | Some _ => false end in
             let tr := match trailer with None => Some d | Some _ => trailer end in
-            let size_ok := match dict_get d rc_n_Size with Some (PInt _) => true | _ => false end in
+            let size_ok := match dict_get d rc_n_Size with Some (SpInt _) => true | _ => false end in
             if first && negb size_ok then mkXR false st2 tr false else
             match dict_get d rc_n_XRefStm with
             | Some _ => mkXR false st2 tr true
@@ -611,7 +611,7 @@ Fixpoint rc_read_xref (fuel : nat) (maxid : Z) (file : list N) (len : N) (off : 
                 let st3 := rc_apply_free maxid st2 in
                 match dict_get d rc_n_Prev with
                 | None => mkXR true st3 tr false
-                | Some (PInt p) =>
+                | Some (SpInt p) =>
                     if (p =? 0)%Z then mkXR true st3 tr false
                     else if (p <? 0)%Z then mkXR false st3 tr true
                     else if existsb (N.eqb (Z.to_N p)) (off :: visited) then mkXR false st3 tr false
@@ -630,13 +630,13 @@ Fixpoint rc_read_xref (fuel : nat) (maxid : Z) (file : list N) (len : N) (off : 
 Definition rc_object_start (s : list N) : option rc_og :=
   let t1 := rc_read_token 0 s in
   if rc_is_int t1 then
-    let s1 := rc_drop (t_end t1) s in
+    let s1 := rc_drop (rc_t_end t1) s in
     let t2 := rc_read_token 0 s1 in
     if rc_is_int t2 then
-      let t3 := rc_read_token 0 (rc_drop (t_end t2) s1) in
+      let t3 := rc_read_token 0 (rc_drop (rc_t_end t2) s1) in
       if rc_is_word t3 rc_kw_obj then
-        let o := rc_atoi (t_raw t1) in
-        if (o =? 0)%Z then None else Some (o, rc_atoi (t_raw t2))
+        let o := rc_atoi (rc_t_raw t1) in
+        if (o =? 0)%Z then None else Some (o, rc_atoi (rc_t_raw t2))
       else None
     else None
   else None.
@@ -646,12 +646,12 @@ Definition rc_is_catalog (file : list N) (len : N) (off : N) : bool :=
   if len <=? off then false else
   let s := rc_drop off file in
   let t1 := rc_read_token 0 s in
-  let s1 := rc_drop (t_end t1) s in
+  let s1 := rc_drop (rc_t_end t1) s in
   let t2 := rc_read_token 0 s1 in
-  let s2 := rc_drop (t_end t2) s1 in
+  let s2 := rc_drop (rc_t_end t2) s1 in
   let t3 := rc_read_token 0 s2 in
-  match parse_obj 2000 (rc_drop (t_end t3) s2) with
-  | Some (PDict d, _) => match dict_get d rc_n_Type with Some (PName n) => rc_beq n rc_n_Catalog | _ => false end
+  match parse_obj 2000 (rc_drop (rc_t_end t3) s2) with
+  | Some (SpDict d, _) => match dict_get d rc_n_Type with Some (SpName n) => rc_beq n rc_n_Catalog | _ => false end
   | _ => false
   end.
 
@@ -661,7 +661,7 @@ Record rc_result := mkRes { r_fatal : bool; r_warn : bool; r_recon : bool; r_tab
 
 Definition rc_root_of (d : list (list N * pobj)) : option rc_og :=
   match dict_get d rc_n_Root with
-  | Some (PRef n g) => Some (Z.of_N n, Z.of_N g)
+  | Some (SpRef n g) => Some (Z.of_N n, Z.of_N g)
   | _ => None
   end.
 Definition rc_has_root (d : list (list N * pobj)) : bool :=
@@ -672,7 +672,7 @@ Fixpoint rc_pick_trailer (file : list N) (len : N) (cands_rev : list N) (n : nat
   match n, cands_rev with
   | S n', p :: r =>
       match (if len <=? p then None else parse_obj 2000 (rc_drop p file)) with
-      | Some (PDict d, _) => if rc_has_root d then Some d else rc_pick_trailer file len r n'
+      | Some (SpDict d, _) => if rc_has_root d then Some d else rc_pick_trailer file len r n'
       | _ => rc_pick_trailer file len r n'
       end
   | _, _ => None
@@ -721,18 +721,18 @@ Definition rc_dict_at (file : list N) (len : N) (off : N) : option (list (list N
   if len <=? off then None else
   let s := rc_drop off file in
   let t1 := rc_read_token 0 s in
-  let s1 := rc_drop (t_end t1) s in
+  let s1 := rc_drop (rc_t_end t1) s in
   let t2 := rc_read_token 0 s1 in
-  let s2 := rc_drop (t_end t2) s1 in
+  let s2 := rc_drop (rc_t_end t2) s1 in
   let t3 := rc_read_token 0 s2 in
-  match parse_obj 2000 (rc_drop (t_end t3) s2) with
-  | Some (PDict d, rest) =>
+  match parse_obj 2000 (rc_drop (rc_t_end t3) s2) with
+  | Some (SpDict d, rest) =>
       (* readObject: a dictionary followed by the keyword stream is a stream, not a dictionary *)
       let t4 := rc_read_token 0 rest in
       if rc_is_word t4 rc_kw_stream then None
       (* readObjectAtOffset skips isspace() after the object and throws "EOF after endobj" when the input ends
          there: the object is then not cached *)
-      else if forallb rc_is_space (rc_drop (t_end t4) rest) then None
+      else if forallb rc_is_space (rc_drop (rc_t_end t4) rest) then None
       else Some d
   | _ => None
   end.
@@ -784,10 +784,10 @@ Definition rc_after_parse (recover : bool) (file : list N) (len : N) (pc : optio
       | Some d =>
           let '(st2, pages_ok) :=
             match dict_get d rc_n_Pages with
-            | Some (PRef n g) =>
+            | Some (SpRef n g) =>
                 let '(s2, pd) := rc_resolve_dict recover file len pc recon_of st1 (Z.of_N n, Z.of_N g) in
                 (s2, match pd with Some _ => true | None => false end)
-            | Some (PDict _) => (st1, true)
+            | Some (SpDict _) => (st1, true)
             | _ => (st1, false)
             end in
           if negb pages_ok then mkRS (rs_table st2) (rs_recon st2) (rs_warned st2) true root1
@@ -818,10 +818,10 @@ Fixpoint rc_has_page (fuel : nat) (file : list N) (len : N) (pc : option (rc_og 
           | Some d =>
               match dict_get d rc_n_Kids with
               | None => true
-              | Some (PArr kids) =>
+              | Some (SpArr kids) =>
                   existsb (fun k => match k with
-                                    | PRef n g => rc_has_page f file len pc t (Z.of_N n, Z.of_N g)
-                                    | PDict _ => true
+                                    | SpRef n g => rc_has_page f file len pc t (Z.of_N n, Z.of_N g)
+                                    | SpDict _ => true
                                     | _ => false
                                     end) kids
               | Some _ => false
@@ -838,7 +838,7 @@ Definition rc_pages_of (file : list N) (len : N) (pc : option (rc_og * N)) (t : 
       | None => None
       | Some off =>
           match rc_dict_at file len off with
-          | Some d => match dict_get d rc_n_Pages with Some (PRef n g) => Some (Z.of_N n, Z.of_N g) | _ => None end
+          | Some d => match dict_get d rc_n_Pages with Some (SpRef n g) => Some (Z.of_N n, Z.of_N g) | _ => None end
           | None => None
           end
       end
@@ -857,7 +857,7 @@ Definition rc_view (recover : bool) (file : list N) : rc_result :=
     let d := match xr_trailer xr with Some d => d | None => [] end in
     let size_warn :=
       match dict_get d rc_n_Size with
-      | Some (PInt sz) =>
+      | Some (SpInt sz) =>
           let max_obj := rc_maxZ (x_deleted st) (rc_maxZ (map (fun e => fst (fst e)) (x_table st)) 0) in
           (sz <? 1)%Z || negb (sz - 1 =? max_obj)%Z
       | _ => true
@@ -888,7 +888,7 @@ Definition rc_view (recover : bool) (file : list N) : rc_result :=
             (* getAllPages: "root of pages tree has no /Kids array" *)
             negb (match (match rc_pc_hit pc pg with Some o => Some o | None => rc_lookup pg (r_table r) end) with
                   | Some off => match rc_dict_at file len off with
-                                | Some d => match dict_get d rc_n_Kids with Some (PArr _) => true | _ => false end
+                                | Some d => match dict_get d rc_n_Kids with Some (SpArr _) => true | _ => false end
                                 | None => true
                                 end
                   | None => true
